@@ -1,16 +1,18 @@
 /-
   C08 — go.mod / go.work edit operations do what a keyed-collection model says.
 
-  This file holds the theorems about the SPECIFICATION side: `EditSpec.step` (Spec/EditSpec.lean) is the
-  keyed-collection model of DESIGN.md §6; the Go oracle's abstract model is compared with it on every
-  generated session (`edit.absstep`).  The theorems state that the step table has the algebra the
-  property text relies on ("keyed collections updated as each operation documents").
-  Helper lemmas: Proofs/EditSpecLists.lean.
+  `EditSpec.step` (Spec/EditSpec.lean) is the keyed-collection model of DESIGN.md §6; the Go oracle's abstract
+  model is compared with it on every generated session (`edit.absstep`).  First part: the step table has the
+  algebra the property text relies on ("keyed collections updated as each operation documents").  Second part:
+  the MODEL of the operations (Model/Modfile/Edit.lean, tied to the Go code by the correspondence) refines the
+  step table on the typed lists, for every go.mod and go.work operation and whole sessions (`refines_abs_typed`).
+  Helper lemmas: Proofs/EditSpecLists.lean, Proofs/EditRefine*.lean.
 -/
 import ModVerif.Spec.EditSpec
 import ModVerif.Proofs.EditSpecLists
 import ModVerif.Model.Modfile.EditAbs
 import ModVerif.Proofs.EditRefineWork
+import ModVerif.Proofs.EditRefineValid
 namespace ModVerif.Props.C08
 open ModVerif ModVerif.EditSpec ModVerif.Modfile
 
@@ -120,8 +122,9 @@ theorem sortBlocks_replace_last_wins (V : Validity) (f : AbsFile) (r : Repl) (re
 
 /-! ### The MODEL of the operations refines the step table (typed lists)
 
-    `Edit.mV` = the validity checks as the Go functions compute them (`GoVersionRE`, `ToolchainRE`,
-    `checkCanonicalVersion`); `Edit.StartOK f` = the starting file is well formed (no directive with an empty key, the
+    `stdValidity` = the specification's validity predicates; they ARE the checks the model of the Go functions performs
+    (`validity_checks_eq`: the hand-translated matchers of `GoVersionRE`, `ToolchainRE` and `checkCanonicalVersion`);
+    `Edit.StartOK f` = the starting file is well formed (no directive with an empty key, the
     exclude / replace / tool entries point at pairwise different lines of the tree); `Edit.ValidArgs op` = non-empty
     keys, bulk lists with pairwise distinct non-empty paths; `Rel` = equal scalars and lists, except that requirements
     (uses) are equal PER PATH — the order between different paths depends on Go's map iteration — and retractions are
@@ -133,32 +136,32 @@ theorem sortBlocks_replace_last_wins (V : Validity) (f : AbsFile) (r : Repl) (re
     each operation succeeds / returns an error exactly when the model says so. -/
 theorem refines_abs_typed (f : File) (ops : List Edit.Op) (e' : Edit.EFile) (res : List Bool) (hs : Edit.StartOK f)
     (hv : ∀ op ∈ ops, Edit.ValidArgs op) (h : Edit.runOps Edit.applyMod (Edit.load f) ops [] 0 = .done e' res) :
-    Rel (Edit.absOf (Edit.cleanup e').f) (run Edit.mV (Edit.absOf f) (ops.map Edit.Op.toSpec)) ∧
-    res = runOk Edit.mV (Edit.absOf f) (ops.map Edit.Op.toSpec) :=
-  Edit.refines_abs_typed f ops e' res hs hv h
+    Rel (Edit.absOf (Edit.cleanup e').f) (run stdValidity (Edit.absOf f) (ops.map Edit.Op.toSpec)) ∧
+    res = runOk stdValidity (Edit.absOf f) (ops.map Edit.Op.toSpec) := by
+  rw [← Edit.mV_eq_std]; exact Edit.refines_abs_typed f ops e' res hs hv h
 
 /-- **refines_abs_typed (go.work).** -/
 theorem refines_abs_typed_work (f : WorkFile) (ops : List Edit.Op) (e' : Edit.EWork) (res : List Bool)
     (hs : Edit.WorkStartOK f) (hv : ∀ op ∈ ops, Edit.ValidArgs op)
     (h : Edit.runOps Edit.applyWork (Edit.loadWork f) ops [] 0 = .done e' res) :
-    Rel (Edit.absOfWork (Edit.workCleanup e').f) (run Edit.mV (Edit.absOfWork f) (ops.map Edit.Op.toSpec)) ∧
-    res = runOk Edit.mV (Edit.absOfWork f) (ops.map Edit.Op.toSpec) :=
-  Edit.refines_abs_typed_work f ops e' res hs hv h
+    Rel (Edit.absOfWork (Edit.workCleanup e').f) (run stdValidity (Edit.absOfWork f) (ops.map Edit.Op.toSpec)) ∧
+    res = runOk stdValidity (Edit.absOfWork f) (ops.map Edit.Op.toSpec) := by
+  rw [← Edit.mV_eq_std]; exact Edit.refines_abs_typed_work f ops e' res hs hv h
 
 /-- the same on the observable outcome of a whole `edit.session` (strict parse, operations, Cleanup) -/
 theorem sessionMod_refines (file : Bytes) (ops : List Edit.Op) (o : Edit.Outcome) (f : File)
     (hf : parseStrict (B "go.mod") file none = .ok f) (hs : Edit.StartOK f) (hv : ∀ op ∈ ops, Edit.ValidArgs op)
     (h : Edit.sessionMod file ops = some o) :
-    o.start = Edit.absOf f ∧ Rel o.typed (run Edit.mV o.start (ops.map Edit.Op.toSpec)) ∧
-    o.res = runOk Edit.mV o.start (ops.map Edit.Op.toSpec) :=
-  Edit.sessionMod_refines file ops o f hf hs hv h
+    o.start = Edit.absOf f ∧ Rel o.typed (run stdValidity o.start (ops.map Edit.Op.toSpec)) ∧
+    o.res = runOk stdValidity o.start (ops.map Edit.Op.toSpec) := by
+  rw [← Edit.mV_eq_std]; exact Edit.sessionMod_refines file ops o f hf hs hv h
 
 theorem sessionWork_refines (file : Bytes) (ops : List Edit.Op) (o : Edit.Outcome) (f : WorkFile)
     (hf : parseWork (B "go.work") file none = .ok f) (hs : Edit.WorkStartOK f) (hv : ∀ op ∈ ops, Edit.ValidArgs op)
     (h : Edit.sessionWork file ops = some o) :
-    o.start = Edit.absOfWork f ∧ Rel o.typed (run Edit.mV o.start (ops.map Edit.Op.toSpec)) ∧
-    o.res = runOk Edit.mV o.start (ops.map Edit.Op.toSpec) :=
-  Edit.sessionWork_refines file ops o f hf hs hv h
+    o.start = Edit.absOfWork f ∧ Rel o.typed (run stdValidity o.start (ops.map Edit.Op.toSpec)) ∧
+    o.res = runOk stdValidity o.start (ops.map Edit.Op.toSpec) := by
+  rw [← Edit.mV_eq_std]; exact Edit.sessionWork_refines file ops o f hf hs hv h
 
 /-- what `Rel` means for an observer: every collection is the same multiset (retractions: of intervals), the scalars
     are equal — the "≈" of lean/PENDING.md, and more (order is preserved except between requirements / uses of
@@ -173,11 +176,18 @@ theorem Rel_observable {f g : AbsFile} (h : Rel f g) :
     the specified new state; a returned error ⇒ `stepOk` is false -/
 theorem applyMod_refines_step (e : Edit.EFile) (op : Edit.Op) (hv : Edit.ValidArgs op) (hi : Edit.TInv e) :
     (∀ e', Edit.applyMod e op = some (.ok e') →
-      stepOk Edit.mV (Edit.absOf (Edit.cleanup e).f) op.toSpec = true ∧
-      Rel (Edit.absOf (Edit.cleanup e').f) (step Edit.mV (Edit.absOf (Edit.cleanup e).f) op.toSpec) ∧ Edit.TInv e') ∧
+      stepOk stdValidity (Edit.absOf (Edit.cleanup e).f) op.toSpec = true ∧
+      Rel (Edit.absOf (Edit.cleanup e').f) (step stdValidity (Edit.absOf (Edit.cleanup e).f) op.toSpec) ∧ Edit.TInv e') ∧
     (∀ err, Edit.applyMod e op = some (.error err) → err.isReturned = true →
-      stepOk Edit.mV (Edit.absOf (Edit.cleanup e).f) op.toSpec = false) :=
-  Edit.applyMod_refines e op hv hi
+      stepOk stdValidity (Edit.absOf (Edit.cleanup e).f) op.toSpec = false) := by
+  rw [← Edit.mV_eq_std]; exact Edit.applyMod_refines e op hv hi
+
+/-- the specification's validity predicates are the checks the Go functions perform (as the model computes them):
+    `GoVersionRE`, `ToolchainRE`, `checkCanonicalVersion` -/
+theorem validity_checks_eq :
+    (∀ s, goVersionRE s = stdValidity.goVersion s) ∧ (∀ s, toolchainRE s = stdValidity.toolchain s) ∧
+    (∀ p v, Edit.checkCanonicalVersion p v = stdValidity.version p v) :=
+  ⟨Edit.goVersionRE_eq, Edit.toolchainRE_eq, Edit.checkCanonicalVersion_eq⟩
 
 /-- non-vacuity of `refines_abs_typed` / `sessionMod_refines`: a concrete well-formed file and a valid session
     (duplicates, deferred removals, a bulk setter in reversed map order, a retraction, a tool) that completes -/
